@@ -33,6 +33,7 @@ type WorldSpec struct {
 	// GasBeforeCreate, when set, is a schedule change the factory receives BEFORE it builds the container (an embedder
 	// may subscribe the factory first): the container must then be priced by it (if it is acceptable)
 	GasBeforeCreate map[string]map[string]uint64 `json:"gas_before_create,omitempty"`
+	StartEpoch      uint32                       `json:"start_epoch,omitempty"` // the epoch in which the containers are built
 	Tokens          []TokenInfo                  `json:"tokens"`
 }
 
@@ -56,7 +57,7 @@ type Trace struct {
 
 func flattenGas(g map[string]map[string]uint64) map[string]uint64 {
 	out := map[string]uint64{}
-	for _, m := range g {
+	for _, m := range normGas(g) {
 		for k, v := range m {
 			out[k] = v
 		}
@@ -93,12 +94,13 @@ type Engine struct {
 func NewEngine(spec WorldSpec) *Engine {
 	e := &Engine{Spec: spec, W: &World{}, M: NewModel(spec.NShards)}
 	for i := 0; i < spec.NShards; i++ {
-		sh, err := NewShard(ShardConfig{NShards: uint32(spec.NShards), Self: uint32(i), Gas: spec.Gas, GasBeforeCreate: spec.GasBeforeCreate, DNS: spec.DNS, EnableNameChange: spec.EnableNameChange, ActivationEpoch: spec.ActivationEpoch})
+		sh, err := NewShard(ShardConfig{NShards: uint32(spec.NShards), Self: uint32(i), Gas: spec.Gas, GasBeforeCreate: spec.GasBeforeCreate, StartEpoch: spec.StartEpoch, DNS: spec.DNS, EnableNameChange: spec.EnableNameChange, ActivationEpoch: spec.ActivationEpoch})
 		if err != nil {
 			panic("world construction failed: " + err.Error())
 		}
 		e.W.Shards = append(e.W.Shards, sh)
 		e.M.Shards[i].Gas = flattenGas(spec.Gas)
+		e.M.Shards[i].Epoch = spec.StartEpoch
 		if spec.GasBeforeCreate != nil && GasValid(spec.GasBeforeCreate) {
 			e.M.Shards[i].Gas = flattenGas(spec.GasBeforeCreate)
 		}
